@@ -2,6 +2,7 @@ package harness
 
 import (
 	"fmt"
+	"github.com/klev-dev/klevdb/verifsim/refcodec"
 	"os"
 	"path/filepath"
 	"strings"
@@ -148,8 +149,10 @@ func hooksC20() Hooks {
 			r.violate("check-target|"+errKind(e)+repTag(existed), "Check of the backup failed: %v", e)
 			return true
 		}
-		// files of the target: exactly the segment files of the source
-		if d := segOnly(src0).diff(segOnly(snapDir(tgt))); d != "" {
+		// files of the target: the log files of the source, byte for byte; index files are
+		// derived data (C11): one that is there must be the source's or the index its log
+		// file implies, one that is not there will be rebuilt
+		if d := backupFilesDiff(src0, snapDir(tgt), r.M.Times, r.M.Keys, r.M.Monotone); d != "" {
 			r.violate("target-files"+repTag(existed), "backup directory differs from the source: %s", d)
 			return true
 		}
@@ -194,6 +197,47 @@ func sourceChanged(before, after dirSnap) string {
 	for n := range after {
 		if _, ok := before[n]; !ok && !strings.HasSuffix(n, ".index") {
 			return fmt.Sprintf("file %s appeared", n)
+		}
+	}
+	return ""
+}
+
+func backupFilesDiff(src, tgt dirSnap, times, keys, mono bool) string {
+	logsOnly := func(s dirSnap) dirSnap {
+		out := dirSnap{}
+		for n, b := range s {
+			if strings.HasSuffix(n, ".log") {
+				out[n] = b
+			}
+		}
+		return out
+	}
+	if d := logsOnly(src).diff(logsOnly(tgt)); d != "" {
+		return d
+	}
+	for n, ib := range tgt {
+		if !strings.HasSuffix(n, ".index") {
+			continue
+		}
+		if sb, ok := src[n]; ok && string(sb) == string(ib) {
+			continue
+		}
+		lb, ok := tgt[strings.TrimSuffix(n, ".index")+".log"]
+		if !ok {
+			return fmt.Sprintf("index file %s without a log file", n)
+		}
+		var base int64
+		fmt.Sscanf(n, "%d", &base)
+		_, recs, _, clean, err := refcodec.DecodeLog(lb, base)
+		if err != nil || !clean {
+			return fmt.Sprintf("log file of %s does not decode cleanly (%v)", n, err)
+		}
+		_, items, err := refcodec.DecodeIndex(ib, base, times, keys)
+		if err != nil {
+			return fmt.Sprintf("index file %s: %v", n, err)
+		}
+		if d := itemsDiff(items, refcodec.DeriveIndex(recs, times, keys), times && mono); d != "" {
+			return fmt.Sprintf("index file %s is neither the source's nor the one its log implies: %s", n, d)
 		}
 	}
 	return ""
